@@ -50,8 +50,8 @@ PROPS = {
     "C12": {"scen": [("c12buf", ["debug"]), ("c12val", ["debug"])], "quick": 24, "thorough": 600},
     "C08": {"scen": [("c08", ["debug"])], "quick": 24, "thorough": 600},
     "C19": {"scen": [("c19", ["debug"])], "quick": 24, "thorough": 600},
-    "C01": {"scen": [("c01", ["internal", "internalp", "omp", "tbb", "debug"])], "quick": 32, "thorough": 900},
-    "C02": {"scen": [("c02", ["internal", "internalp", "omp", "tbb", "debug"])], "quick": 32, "thorough": 900},
+    "C01": {"scen": [("c01", ["internal", "internalp", "omp", "tbb", "debug"])], "quick": 25, "thorough": 900},
+    "C02": {"scen": [("c02", ["internal", "internalp", "omp", "tbb", "debug"])], "quick": 28, "thorough": 900},
     "C13": {"scen": [("c13", ["internal", "omp", "tbb", "debug"])], "quick": 28, "thorough": 600},
     "C20": {"scen": [("c20trace", ["debug"]), ("c20traceg", ["debug"]), ("c20img", ["debug"])], "quick": 24, "thorough": 600},
     "C14": {"scen": [("c14", ["asan"]), ("c14tbb", ["asantbb"]), ("c14glibc", ["glibc"])], "quick": 24, "thorough": 600},
